@@ -247,6 +247,21 @@ def alphabet():
     return [(c, v) for c, vals in features().items() for v in vals]
 
 
+def aba_triples(alpha, starts, seed):
+    """a category requested twice with different values and a request of another category in between (the shortest
+    sequences in which a stale intermediate representation of one category can influence the other)"""
+    out = []
+    for s in starts:
+        for a in alpha:
+            for b in alpha:
+                if a[0] == b[0] and a[1] != b[1]:
+                    for x in alpha:
+                        if x[0] != a[0]:
+                            out.append((s, (a, x, b)))
+    random.Random(seed).shuffle(out)
+    return out
+
+
 def replay(path):
     with open(path) as f:
         d = json.load(f)
@@ -274,13 +289,13 @@ def main():
         cases += [(s0 + '+rich', seq) for s0 in START for L in (1, 2) for seq in itertools.product(alpha, repeat=L)]
         l3 = [(START[0], seq) for seq in itertools.product(alpha, repeat=3)]
         random.Random(run.seed).shuffle(l3)
-        cases += l3
+        cases += aba_triples(alpha, START, run.seed) + l3
     else:
         l1 = [c for c in cases if len(c[1]) == 1] + [(START[2], (a,)) for a in alpha] + \
             [(s0 + '+rich', (a,)) for s0 in START[1:] for a in alpha]
         l2 = [c for c in cases if len(c[1]) == 2]
         random.Random(run.seed).shuffle(l2)
-        cases = l1 + l2
+        cases = l1 + l2 + aba_triples(alpha, [START[0], START[2]], run.seed)
     nproc = int(os.environ.get('VERIF_JOBS', 0)) or min(16, os.cpu_count() or 4)
     t0 = time.time()
     stats = dict(unsat=0, sat_confirmed=0, sat_unreplayable=0, unknown=0, unsupported=0)
@@ -344,7 +359,7 @@ def main():
                      'set_transit_compartments', 'add_lag_time', 'remove_lag_time', 'has_* detectors',
                      'get_number_of_peripheral_compartments', 'get_number_of_transit_compartments', 'get_lag_times']
     run.bounds = dict(start_models=starts, alphabet=[f'{c}={v}' for c, v in alpha],
-                      sequences='all of length 1; length 2 (quick: seeded order within budget; thorough: complete + '
+                      sequences='all of length 1; length 2; triples (c=v1, other category, c=v2) from an IV and an oral start model (quick: seeded order within budget; thorough: complete for all start models + '
                                 'length 3 from the first start model in seeded order)',
                       outside='metabolite/effect/TMDD compartments, the MFL text parser (C18)')
     run.assumptions = ['the detector / other-category clause is a finite concrete comparison, not a solver verdict',
